@@ -338,6 +338,13 @@ def check(run, res, t_end):
             # the last patch may still be on its way if the call ended within the final moments
             settled = all(c['t1'] < t_end - 15.0 for c in calls if c['uid'] == uid and c.get('t1') is not None and any(tuple(p) == path for p, _ in c.get('patched') or []))
             if got != val and not hit_by_c and settled:
+                # finding C seen from the successor's side: the value there is what an invocation for a same-named *other* uid patched
+                alien = [c for c in calls if c['name'] == body['metadata']['name'] and c['uid'] != uid
+                         and any(tuple(p) == path and v == got for p, v in c.get('patched') or [])]
+                if alien:
+                    res.known.append({'id': FINDING_C, 'msg': f'{body["metadata"]["name"]} ({uid}): {".".join(path)} is {got!r}, which {alien[0]["hid"]} patched for its '
+                                      f'same-named predecessor {alien[0]["uid"]} (view rv={alien[0]["rv"]}, t={alien[0]["t0"]})'})
+                    continue
                 res.fail('C08/field-not-delivered', f'{body["metadata"]["name"]} ({uid}): {".".join(path)} is {got!r}, the handlers\' patches say {val!r}')
         have = list((body.get('status') or {}).get('markers') or [])
         for m, c in markers.get(uid, []):
@@ -351,6 +358,20 @@ def check(run, res, t_end):
                 if refused and not later and not delivered:
                     res.known.append({'id': FINDING_D, 'msg': f'{body["metadata"]["name"]} ({uid}): the transformation {m} of the last invocation of '
                                       f'{hs[c["hid"]]["kind"]} {c["hid"]} (t={c["t0"]}..{c["t1"]}) was refused with 422 (stale version) and never sent again'})
+                    continue
+            if n == 0 and c['t1'] is not None and c['t1'] < t_end - 15.0:
+                # still being carried forward: under lasting contention (background handlers patching more often than a request round-trips)
+                # every resourceVersion test goes stale; the transformation is neither lost nor duplicated, it is re-sent - recently
+                carrying = [r for r in reqs if 'jsonpatch' in r['classes'] and m in json.dumps(r['payload'])]
+                def tested(r):
+                    try:
+                        return int(r['payload'][0]['value'])
+                    except Exception:
+                        return -1
+                # (re-sent against ever fresher versions: a request that keeps testing one stale version is not starving, it is wrong)
+                fresher = len(carrying) >= 4 and tested(carrying[-1]) > tested(carrying[-4]) > 0
+                if fresher and carrying[-1]['outcome'] in (422, None) and carrying[-1]['t'] > t_end - 15.0 and not any(r['outcome'] == 200 for r in carrying):
+                    res.label('transformation-starved-by-contention')
                     continue
             if n != 1 and c['t1'] is not None and c['t1'] < t_end - 15.0:
                 res.fail('C08/marker-not-exactly-once', f'{body["metadata"]["name"]} ({uid}): transformation marker {m} of {c["hid"]} (t={c["t0"]}) occurs {n} times in {have}')
